@@ -227,6 +227,15 @@ def check(run: Run) -> None:
         sf = R.find(rb.body, lambda n: isinstance(n, C.Binary) and n.op == "=" and cn(n.l).endswith(".started") and cn(n.r) == "false")
         if not sf:
             run.finding("C14.b", "start_impl:rollback-started-false", "rollback must leave started=false", loc=fa.loc(rb))
+        # a stop that throws inside the rollback must not end it: each per-node stop runs under its own capture (like stop_impl), so the
+        # nodes started before the failing one are still stopped ("a failing stop does not prevent the remaining nodes from stopping")
+        run.count(1, "C14.b.rollback-best-effort")
+        for st_call in stops:
+            caps = [c for c in R.calls(rl[0].body) if R.callee_name(c).split("::")[-1] in ("capture", "fallback_on_exception") and
+                    any(isinstance(a, C.Lambda) and R._contains(a, st_call) for a in c.args)]
+            if not caps:
+                run.finding("C14.b", "start_impl:rollback-stop-uncaptured", "a node stop that throws during the start rollback leaves the rollback loop: the nodes "
+                            "started before it are never stopped (the graph is not 'started', so no later stop pass reaches them)", loc=fa.loc(st_call))
 
     # ---- c. stop loop ---------------------------------------------------------------------------------
     with run.obligation("C14.c", "K3+K2+K1", "graph stop_impl: returns iff !started; throws iff stop_time<NOW; descending loop with one "
@@ -557,6 +566,7 @@ def check(run: Run) -> None:
 ANYARGS = ("anyargs",)
 
 VARIANTS = [
+    {"id": "b-revert-fix-rollback-stop-uncaptured", "expect": "C14.b", "edits": [{"file": GRAPH, "find": "      rollback_failures.capture([&] {\n        NodeView node_view = graph_node_view(runtime, graph.data(), index - 1);", "replace": "      [&] {\n        NodeView node_view = graph_node_view(runtime, graph.data(), index - 1);"}, {"file": GRAPH, "find": "        node_view.stop(state.evaluation_time);\n        failed_notify.release();\n      });", "replace": "        node_view.stop(state.evaluation_time);\n        failed_notify.release();\n      }();"}]},
     {"id": "a-complete-order", "expect": "C14.a", "edits": [{"file": SCOPE, "find": "            active_ = false;\n            fn_();", "replace": "            fn_();\n            active_ = false;"}]},
     {"id": "a-unwind-ge", "expect": "C14.a", "edits": [{"file": SCOPE, "find": "std::uncaught_exceptions() <= uncaught_exceptions_", "replace": "std::uncaught_exceptions() < uncaught_exceptions_"}]},
     {"id": "a-capture-last", "expect": "C14.a", "edits": [{"file": SCOPE, "find": "if (first_exception_ == nullptr) { first_exception_ = std::current_exception(); }", "replace": "first_exception_ = std::current_exception();"}]},
@@ -564,8 +574,8 @@ VARIANTS = [
     {"id": "b-count-early", "expect": "C14.b", "edits": [{"file": GRAPH, "find": "    state.lifecycle_observers->notify_before_start_node(node_view);\n", "replace": "    state.lifecycle_observers->notify_before_start_node(node_view);\n    ++started_nodes;\n"},
                                                            {"file": GRAPH, "find": "    node_start_failed.release();\n    ++started_nodes;", "replace": "    node_start_failed.release();"}]},
     {"id": "b-release-early", "expect": "C14.b", "edits": [{"file": GRAPH, "find": "  state.next_scheduled_time = MAX_DT;\n  for (std::size_t index = 0; index < runtime.layout.node_count; ++index) {\n    const DateTime scheduled", "replace": "  rollback.release();\n  state.next_scheduled_time = MAX_DT;\n  for (std::size_t index = 0; index < runtime.layout.node_count; ++index) {\n    const DateTime scheduled"}]},
-    {"id": "b-rollback-ascending", "expect": "C14.b", "edits": [{"file": GRAPH, "find": "for (std::size_t index = started_nodes; index > 0; --index) {\n      NodeView node_view = graph_node_view(runtime, graph.data(), index - 1);", "replace": "for (std::size_t index = 1; index <= started_nodes; ++index) {\n      NodeView node_view = graph_node_view(runtime, graph.data(), index - 1);"}]},
-    {"id": "b-rollback-scope-exit", "expect": "C14.b", "edits": [{"file": GRAPH, "find": "  auto rollback = UnwindCleanupGuard([&] {\n    for (std::size_t index = started_nodes;", "replace": "  auto rollback = make_scope_exit([&] {\n    for (std::size_t index = started_nodes;"}]},
+    {"id": "b-rollback-ascending", "expect": "C14.b", "edits": [{"file": GRAPH, "find": "for (std::size_t index = started_nodes; index > 0; --index) {\n      rollback_failures.capture([&] {", "replace": "for (std::size_t index = 1; index <= started_nodes; ++index) {\n      rollback_failures.capture([&] {"}]},
+    {"id": "b-rollback-scope-exit", "expect": "C14.b", "edits": [{"file": GRAPH, "find": "  auto rollback = UnwindCleanupGuard([&] {\n    // Best-effort, like stop_impl:", "replace": "  auto rollback = make_scope_exit([&] {\n    // Best-effort, like stop_impl:"}]},
     {"id": "c-stop-ascending", "expect": "C14.c", "edits": [{"file": GRAPH, "find": "for (std::size_t index = runtime.layout.node_count; index > 0; --index) {\n    exceptions.capture([&] {\n      NodeView node_view = graph_node_view(runtime, graph.data(), index - 1);", "replace": "for (std::size_t index = 1; index <= runtime.layout.node_count; ++index) {\n    exceptions.capture([&] {\n      NodeView node_view = graph_node_view(runtime, graph.data(), index - 1);"}]},
     {"id": "c-started-after-rethrow", "expect": "C14.c", "edits": [{"file": GRAPH, "find": "  state.started = false;\n  if (exceptions.has_exception()) {", "replace": "  if (exceptions.has_exception()) {"},
                                                                      {"file": GRAPH, "find": "  exceptions.rethrow_if_any();\n}", "replace": "  exceptions.rethrow_if_any();\n  state.started = false;\n}"}]},
